@@ -157,6 +157,11 @@ func (x *Exec) doCall(fr *Frame, st *State, call *ssa.CallCommon, ins *ssa.Call,
 		if site != nil {
 			x.obligation(fr, site, "nil", st.PC, Not(Eq(f.T, BVInt(0, 32))), "call of nil function value")
 		}
+		if x.topContract != nil && x.topContract.Opts["purecalls"] != "" {
+			// `opt purecalls`: function values received from the caller (hash functions) are assumed not to write memory
+			x.C.trusted["function values called by "+x.topContract.Name+" do not modify memory (opt purecalls)"] = true
+			return wrap(x.havocResults(st, sig, "dyn")), nil
+		}
 		x.C.Note("call through a symbolic function value (results and heap havocked)")
 		x.havocHeap(st, "dynamic call")
 		return wrap(x.havocResults(st, sig, "dyn")), nil
